@@ -44,6 +44,8 @@ def run(chk, tier):
                 if inst is None:
                     continue
                 real, twin = inst
+                if re.search(r"\b(Vec|Option|Box|HashMap|IntoIterator|Sized|String)\b", real):
+                    continue   # user-written tokens naming prelude items: they are the user's to resolve, not the expansion's
                 # std's own derives in the scaffolding are spelled with absolute paths so that only derive_more's output is under test
                 real = real.replace("#[derive(Debug, derive_more::Display)]", "#[derive(::core::fmt::Debug, derive_more::Display)]")
                 item = "#[derive(derive_more::%s)] %s" % (derive, real)
